@@ -306,13 +306,27 @@ impl EditConfig {
         }
     }
 
+    /// Parses an inclusive frame range and checks it against the number of RPUs
+    fn checked_range(range: &str, len: usize) -> Result<(usize, usize)> {
+        let (start, end) = EditConfig::range_string_to_tuple(range)?;
+
+        ensure!(start <= end, "Invalid range: start {} > end {}", start, end);
+        ensure!(
+            end < len,
+            "Invalid range: end {} >= {} available RPUs",
+            end,
+            len
+        );
+
+        Ok((start, end))
+    }
+
     fn remove_frames(&self, ranges: &[String], rpus: &mut [Option<DoviRpu>]) -> Result<()> {
         let mut amount = 0;
 
         for range in ranges {
             if range.contains('-') {
-                let (start, end) = EditConfig::range_string_to_tuple(range)?;
-                ensure!(end < rpus.len(), "invalid end range {}", end);
+                let (start, end) = EditConfig::checked_range(range, rpus.len())?;
 
                 amount += end - start + 1;
                 rpus[start..=end].iter_mut().for_each(|e| *e = None);
@@ -442,11 +456,7 @@ impl EditConfig {
         let edits = edits.iter().filter(|e| e.0.to_lowercase() != "all");
 
         for edit in edits {
-            let (start, end) = EditConfig::range_string_to_tuple(edit.0)?;
-
-            if end > rpus.len() {
-                bail!("Invalid range: {} > {} available RPUs", end, rpus.len());
-            }
+            let (start, end) = EditConfig::checked_range(edit.0, rpus.len())?;
 
             for rpu in rpus[start..=end].iter_mut().filter_map(|e| e.as_mut()) {
                 if let Some(vdr_dm_data) = rpu.vdr_dm_data.as_mut() {
@@ -542,12 +552,8 @@ impl ActiveArea {
             let specific_edits = edits.iter().filter(|e| e.0.to_lowercase() != "all");
 
             for edit in specific_edits {
-                let (start, end) = EditConfig::range_string_to_tuple(edit.0)?;
+                let (start, end) = EditConfig::checked_range(edit.0, rpus.len())?;
                 let preset_id = *edit.1;
-
-                if end > rpus.len() {
-                    bail!("Invalid range: {} > {} available RPUs", end, rpus.len());
-                }
 
                 if let Some(active_area_offsets) = presets.iter().find(|e| e.id == preset_id) {
                     for rpu in rpus[start..=end].iter_mut().filter_map(|e| e.as_mut()) {
